@@ -162,6 +162,15 @@ def _with_duplicate(t, rng):
     return Triangle(list(t.cells) + [c.replace(values={k: v for k, v in c.values.items()})])
 
 
+def _some_prev(t, rng):
+    ds = sorted({getattr(c, "prev_evaluation_date", c.period_start) for c in t.cells})
+    return rng.choice(ds)
+
+
+def _some_eval(t, rng):
+    return rng.choice(sorted({c.evaluation_date for c in t.cells}))
+
+
 def _first_meta_keys(t):
     return sorted({k for c in t.cells for k in c.metadata.details})
 
@@ -307,6 +316,14 @@ PUBLIC_OPS = [
     ("fill_forward_gaps", lambda t, r: __import__("bermuda").utils.fill_forward_gaps(t)),
     ("backfill", lambda t, r: __import__("bermuda").utils.backfill(t)),
     ("json_roundtrip", lambda t, r: Triangle.from_dict(t.to_dict())),
+    ("union_interleaved", lambda t, r: t[0::2] | t[1::2]),
+    ("symdiff_interleaved", lambda t, r: t[1::2] ^ t[0::2]),
+    ("union_slices_reversed", lambda t, r: __import__("functools").reduce(lambda a, b: a | b, list(t.slices.values())[::-1])),
+    ("inter_then_union", lambda t, r: (t & t[0::2]) | (t - t[0::2])),
+    ("replace_eval_to_prev", lambda t, r: t.replace(evaluation_date=_some_prev(t, r))),
+    ("replace_prev_to_eval", lambda t, r: t.replace(prev_evaluation_date=lambda c: c.evaluation_date)),
+    ("replace_prev_later", lambda t, r: t.replace(prev_evaluation_date=_some_eval(t, r))),
+    ("replace_period_start_late", lambda t, r: t.replace(period_start=lambda c: c.period_end + datetime.timedelta(days=r.choice([0, 1])))),
     ("period_merge", lambda t, r: t.period_merge(_period_source(t, r))),
     ("loose_period_merge", lambda t, r: __import__("importlib").import_module("bermuda.utils.merge").loose_period_merge(t, _period_source(t, r, loose=True))),
     ("to_incremental_dups", lambda t, r: _with_duplicate(t, r).to_incremental()),
